@@ -62,3 +62,14 @@ func Tiles_EmitBytesParts(a *asm.Emitter, b []byte) { a.EmitBytes(b) }
 // @   ensures TILES_C(a)
 // @   ensures TILES_E(a)
 func Tiles_EmitBytes(a *asm.Emitter, b []byte) { Tiles_EmitBytesParts(a, b) }
+
+// Finalize patches operand bytes only: the listing invariant survives it ("before and after Finalize").
+//
+// @ lemma Tiles_Finalize property C15
+// @   requires TILES(a) && WF_S8IN(a) && WF_U16IN(a) && WF_S8DIST(a) && WF_U16DIST(a) && WF_S8U16(a)
+// @   ensures TILES_A(a)
+// @   ensures TILES_L(a)
+// @   ensures TILES_C(a)
+// @   ensures TILES_E(a)
+// @   ensures len(a.lines) == old(len(a.lines)) && all(k, int, 0 <= k && k < len(a.lines) ==> a.lines[k] == old(a.lines[k]))
+func Tiles_Finalize(a *asm.Emitter) error { return a.Finalize() }
